@@ -12,6 +12,7 @@ import (
 	"strconv"
 	"strings"
 	"sync"
+	"sync/atomic"
 	"time"
 
 	"github.com/hneemann/parser2/funcGen"
@@ -408,7 +409,12 @@ type concCase struct {
 
 func runConcWorker(cases []*concCase, rounds, gmp int) {
 	pending := cases
+	solo := false // the batch watchdog fired: the case it fired on is run again alone, with a limit of its own
 	for len(pending) > 0 {
+		batch := pending
+		if solo {
+			batch = pending[:1]
+		}
 		bin := filepath.Join(verifRoot, ".work/bin/tie-race")
 		cmd := exec.Command(bin, "worker", "conc")
 		cmd.Env = append(os.Environ(), "GOMEMLIMIT=3GiB", "GORACE=halt_on_error=1 exitcode=66", fmt.Sprintf("GOMAXPROCS=%d", gmp))
@@ -426,32 +432,46 @@ func runConcWorker(cases []*concCase, rounds, gmp int) {
 			}
 			w.Flush()
 			stdin.Close()
-		}(pending)
+		}(batch)
 		done := 0
 		sc := bufio.NewScanner(stdout)
 		sc.Buffer(make([]byte, 1<<20), 1<<26)
-		timer := time.AfterFunc(time.Duration(60+len(pending)*2)*time.Second, func() { cmd.Process.Kill() })
+		var watchdog atomic.Bool
+		limit := time.Duration(120+len(batch)*4) * time.Second
+		if solo {
+			limit = 300 * time.Second
+		}
+		timer := time.AfterFunc(limit, func() { watchdog.Store(true); cmd.Process.Kill() })
 		for sc.Scan() {
 			f := strings.SplitN(sc.Text(), "\t", 2)
-			if len(f) == 2 && done < len(pending) && f[0] == pending[done].id {
-				pending[done].result = f[1]
-				pending[done].answered = true
+			if len(f) == 2 && done < len(batch) && f[0] == batch[done].id {
+				batch[done].result = f[1]
+				batch[done].answered = true
 				done++
 			}
 		}
 		timer.Stop()
 		err := cmd.Wait()
-		if done < len(pending) {
-			cc := pending[done]
+		switch {
+		case done == len(batch):
+			pending = pending[done:]
+			solo = false
+		case watchdog.Load() && !solo:
+			// the machine is busy or one case hangs: decide on that case alone
+			pending = pending[done:]
+			solo = true
+		default:
+			cc := batch[done]
 			cc.answered = true
 			cc.result = "CRASH"
-			if ee, ok := err.(*exec.ExitError); ok && ee.ExitCode() == 66 {
+			if watchdog.Load() {
+				cc.result = "TIMEOUT"
+			} else if ee, ok := err.(*exec.ExitError); ok && ee.ExitCode() == 66 {
 				cc.result = "RACE"
 			}
 			cc.stderr = errb.String()
 			pending = pending[done+1:]
-		} else {
-			pending = nil
+			solo = false
 		}
 	}
 }
@@ -503,6 +523,8 @@ func runC11(c *Ctx) {
 			c.Violation("data-race", "the race detector reported a data race during concurrent evaluation", replay)
 		case cc.result == "CRASH":
 			c.Violation("crash", "the worker died during concurrent evaluation", replay)
+		case cc.result == "TIMEOUT":
+			c.Violation("hang", "concurrent evaluation of this program alone did not finish within 300 s", replay)
 		case strings.HasPrefix(cc.result, "DIFF"):
 			c.disagree++
 			c.Violation("concurrent-differs-from-isolated", "a concurrent evaluation differs from the isolated one", replay)
